@@ -5,6 +5,7 @@ use std::cell::RefCell;
 pub mod c13;
 pub mod dump;
 pub mod engine;
+pub mod faults;
 pub mod forest;
 pub mod gen;
 pub mod interp;
